@@ -462,7 +462,7 @@ func genCrash(seed uint64, tier string) *DaemonScenario {
 	modes := []struct {
 		m   string
 		pct int
-	}{{"before", 0}, {"after", 0}, {"torn", 0}, {"torn", 50}, {"torn", 97}, {"mid", 0}}
+	}{{"before", 0}, {"after", 0}, {"torn", 0}, {"torn", 50}, {"torn", 97}, {"mid", 0}, {"fstep", 1}, {"fstep", 2}, {"fstep", 3}, {"fstep", 4}, {"late", 0}}
 	v := int(seed % uint64(len(variants)))
 	idx := int(seed / uint64(len(variants)))
 	mode := modes[idx%len(modes)]
